@@ -16,6 +16,8 @@
     ((a)->len >= 0 && (a)->len <= VCAPL && \
      (((a)->len == 0 && (a)->items == NULL) || __CPROVER_is_fresh((a)->items, ASZ((a)->len))))
 #define ARRAY_VALID(a) (__CPROVER_is_fresh((a), sizeof(*(a))) && ARRAY_INV(a))
+/* the same, with the length recorded in the witness global w_len (native replay reads W_w_len) */
+#define ARRAY_VALID_W(a) (ARRAY_VALID(a) && w_len == (long) (a)->len)
 
 /* postcondition form: the block is live, starts at offset 0 and has EXACTLY len slots */
 #define ARRAY_POST(a) \
